@@ -93,6 +93,7 @@ def run(tier, work):
     if not mc["ok"]:
         raise vlib.Broken("HeartBeatImpl violates its invariants:\n" + mc["out"][-2000:])
     hists, _ = vlib.generate(SPEC, "HeartBeatGen", "GenQuick.cfg" if tier == "quick" else "GenThorough.cfg", work, "p2a")
+    hists, nexh = vlib.cap_histories(hists, 100000)
     nsim = 1500 if tier == "quick" else 40000
     sims, _ = vlib.generate(SPEC, "HeartBeatGen", "GenSim.cfg", work, "p2b", workers=4,
                             simulate="num=%d" % nsim, extra=["-depth", "12", "-seed", str(vlib.SEED)], timeout=900)
@@ -129,7 +130,7 @@ def run(tier, work):
         samples=samples, evaluations=len(exs), distinct_nontrivial=nontrivial,
         rule="populations x heart_beat scripts x tick/top-level steps printed by TLC from HeartBeatGen (BFS + -simulate); "
              "non-trivial = at least one enabled object whose heart_beat performs an operation; distinct by JSON text",
-        exhaustive=False, events_validated=nevents, driver_failures=ncrash),
+        exhaustive=False, enumerated_by_tlc=nexh, enumerated_run=len(hists), events_validated=nevents, driver_failures=ncrash),
         time.time() - t0, len(verdict.new),
         ["virtual time; scripted reactor", "HeartBeatImpl bounds: see spec/heartbeat/MCImpl*.cfg"])
     return rc
